@@ -119,7 +119,15 @@ def make_func(ctx: Ctx, spec: dict, flavour: str):
     table = spec.get("table")
     injected = ctx.injected.setdefault(fid, Injected(fid))
 
+    expr = spec.get("expr")
+    code = compile(expr, f"<expr {fid}>", "eval") if expr is not None else None
+
     def result_for(a):
+        if code is not None:
+            r = eval(code, {"__builtins__": {"len": len, "min": min, "max": max, "tuple": tuple, "list": list}}, dict(zip(params, a)))  # noqa: S307
+            if kind == "route":
+                return _decision(r)
+            return r
         if kind == "func":
             if nout == 0:
                 return None
